@@ -578,3 +578,128 @@ def e14_every_bucket_minimised(ctx) -> None:
         bad = (skips or guarded or [lp])[0]
         ctx.violation("E14", bad, "a bucket of MINIMIZE_ORDER can be skipped in _minimize: its rules are never moved to needed_rules, so a class that is only counted through that "
                       "bucket (a cached reverse rule in a database created with reverse=False) ends up without a rule")
+
+
+def e15_lookup_table_keyed_by_own_key(ctx) -> None:
+    """rules() answers a needed key from a table before it recomputes the rule.  What the
+    table holds under a key k is a rule whose own forest_key is k: every entry is visibly
+    `(r.forest_key(...), r)`.  A table brought in from elsewhere is traced to its writers."""
+    P = ctx.P
+    m = P.need_method(EX, "rules", own=True)
+    f = m.node
+    loops = [n for n in walk_local(f) if isinstance(n, ast.For) and norm(n.iter) == "self.needed_rules" and isinstance(n.target, ast.Name)]
+    if not loops:
+        return      # E5 reports this
+    rk = loops[0].target.id
+    tables: Set[str] = set()
+    for n in walk_local(loops[0]):
+        if isinstance(n, ast.Compare) and len(n.ops) == 1 and isinstance(n.ops[0], (ast.In, ast.NotIn)) and norm(n.left) == rk and isinstance(n.comparators[0], ast.Name):
+            tables.add(n.comparators[0].id)
+        if isinstance(n, ast.Call) and isinstance(n.func, ast.Attribute) and n.func.attr == "get" and isinstance(n.func.value, ast.Name) and n.args and norm(n.args[0]) == rk:
+            tables.add(n.func.value.id)
+        if isinstance(n, ast.Subscript) and isinstance(n.value, ast.Name) and norm(n.slice) == rk and isinstance(n.ctx, ast.Load):
+            tables.add(n.value.id)
+    if not tables:
+        raise AnalysisError("E15: rules() no longer answers needed keys from a table")
+
+    def own_pair(k: ast.AST, v: ast.AST) -> bool:
+        return isinstance(k, ast.Call) and isinstance(k.func, ast.Attribute) and k.func.attr == "forest_key" and norm(k.func.value) == norm(v)
+
+    def foreign(src: ast.AST) -> None:
+        """`src` is poured into the table as it is: find who fills it."""
+        s = D.expanded(f, src)
+        while isinstance(s, ast.Call) and norm(s.func) in ("dict",) and len(s.args) == 1:
+            s = s.args[0]
+        if isinstance(s, ast.IfExp):
+            for arm in (s.body, s.orelse):
+                if not (isinstance(arm, (ast.Dict, ast.Tuple, ast.List)) and not getattr(arm, "keys", getattr(arm, "elts", None))):
+                    foreign(arm)
+            return
+        if not (isinstance(s, ast.Name) and s.id in m.params()):
+            raise AnalysisError(f"E15: the table of rules() is filled from `{norm(src)[:60]}`, which the analysis cannot trace")
+        pos = m.params().index(s.id) - 1
+        n_call = 0
+        for fi in P.all_functions():
+            for c in walk_local(fi.node):
+                if not (isinstance(c, ast.Call) and isinstance(c.func, ast.Attribute) and c.func.attr == "rules" and fi.cls is not None
+                        and (len(c.args) > pos or any(k.arg == s.id for k in c.keywords))):
+                    continue
+                recv = D.expanded(fi.node, c.func.value)
+                if not (isinstance(recv, ast.Call) and norm(recv.func) == EX):
+                    continue
+                arg = c.args[pos] if len(c.args) > pos else [k.value for k in c.keywords if k.arg == s.id][0]
+                if not is_self_attr(arg):
+                    raise AnalysisError(f"E15: {fi.qualname} hands `{norm(arg)[:40]}` to rules() as a table")
+                n_call += 1
+                attr = arg.attr
+                for mm in (x for k in P.mro(fi.cls) for x in k.methods.values()):
+                    g = mm.node
+                    for w in walk_local(g):
+                        kv = None
+                        if isinstance(w, ast.Assign) and len(w.targets) == 1 and isinstance(w.targets[0], ast.Subscript) and is_self_attr(w.targets[0].value, attr):
+                            kv = (w.targets[0].slice, w.value)
+                        elif isinstance(w, ast.Call) and isinstance(w.func, ast.Attribute) and w.func.attr == "setdefault" and is_self_attr(w.func.value, attr) and len(w.args) == 2:
+                            kv = (w.args[0], w.args[1])
+                        elif isinstance(w, ast.Call) and isinstance(w.func, ast.Attribute) and w.func.attr == "update" and is_self_attr(w.func.value, attr):
+                            raise AnalysisError(f"E15: {mm.qualname} fills self.{attr} in bulk")
+                        if kv is None:
+                            continue
+                        k, v = kv
+                        cands = [D.expanded(g, k)]
+                        if isinstance(k, ast.Name):
+                            # a loop variable: every element the list can hold
+                            for lp in C.enclosing_loops(g, w):
+                                if isinstance(lp, ast.For) and norm(lp.target) == k.id and isinstance(lp.iter, ast.Name):
+                                    cands = []
+                                    for d in D.definitions(g).get(lp.iter.id, []):
+                                        if isinstance(d[1], (ast.List, ast.Tuple)):
+                                            cands.extend(d[1].elts)
+                                    for x in walk_local(g):
+                                        if isinstance(x, ast.Call) and isinstance(x.func, ast.Attribute) and norm(x.func.value) == lp.iter.id and x.func.attr in ("append", "extend") and x.args:
+                                            a0 = x.args[0]
+                                            cands.append(a0.elt if isinstance(a0, (ast.GeneratorExp, ast.ListComp)) else a0)
+                        if not cands:
+                            raise AnalysisError(f"E15: cannot tell which keys {mm.qualname} files rules under")
+                        bad = [x for x in cands if not own_pair(x, v)]
+                        if bad:
+                            ctx.violation("E15", w, f"{mm.qualname} files `{norm(v)[:30]}` under `{norm(bad[0])[:70]}`, which is not that rule's own forest key; rules() answers a "
+                                          "needed key from this table, so for such a key it hands back a rule of another class (one class gets two rules, another none)")
+                        else:
+                            ctx.ok("E15", f"{mm.qualname}: rules are filed in self.{attr} under their own forest key")
+        if not n_call:
+            raise AnalysisError("E15: no caller of rules() found for the extra table")
+
+    for t in sorted(tables):
+        for d in D.definitions(f).get(t, []):
+            v = d[1]
+            if v is None:
+                raise AnalysisError(f"E15: `{t}` in rules() is bound in a way the analysis does not read")
+            if isinstance(v, ast.DictComp):
+                if own_pair(v.key, v.value):
+                    ctx.ok("E15", "the table of known rules is keyed by each rule's own forest key")
+                else:
+                    ctx.violation("E15", v, f"the table rules() answers from maps `{norm(v.key)[:60]}` to `{norm(v.value)[:30]}`: the rule found under a key is not the rule with that key")
+            elif isinstance(v, ast.Dict) and not v.keys:
+                pass
+            elif isinstance(v, ast.Call) and norm(v.func) == "dict" and not v.args and not v.keywords:
+                pass
+            else:
+                foreign(v)
+        for x in walk_local(f):
+            if isinstance(x, ast.Call) and isinstance(x.func, ast.Attribute) and isinstance(x.func.value, ast.Name) and x.func.value.id == t and x.func.attr == "update" and x.args:
+                a0 = x.args[0]
+                if isinstance(a0, (ast.GeneratorExp, ast.ListComp)) and isinstance(a0.elt, ast.Tuple) and len(a0.elt.elts) == 2:
+                    if own_pair(a0.elt.elts[0], a0.elt.elts[1]):
+                        ctx.ok("E15", "the table of known rules is keyed by each rule's own forest key")
+                    else:
+                        ctx.violation("E15", x, f"`{norm(x)[:80]}` files a rule under a key that is not its own forest key")
+                elif isinstance(a0, ast.DictComp):
+                    if not own_pair(a0.key, a0.value):
+                        ctx.violation("E15", x, f"`{norm(x)[:80]}` files a rule under a key that is not its own forest key")
+                    else:
+                        ctx.ok("E15", "the table of known rules is keyed by each rule's own forest key")
+                else:
+                    foreign(a0)
+            if isinstance(x, ast.Assign) and len(x.targets) == 1 and isinstance(x.targets[0], ast.Subscript) and isinstance(x.targets[0].value, ast.Name) and x.targets[0].value.id == t:
+                if not own_pair(x.targets[0].slice, x.value):
+                    ctx.violation("E15", x, f"`{norm(x)[:80]}` files a rule under a key that is not its own forest key")
